@@ -218,7 +218,17 @@ func c09child(seed uint64, thorough bool, from, to int) {
 	if to > len(progs) {
 		to = len(progs)
 	}
+	skip := map[int]bool{}
+	for _, f := range strings.Split(os.Getenv("C09_SKIP"), ",") {
+		if v, err := strconv.Atoi(f); err == nil {
+			skip[v] = true
+		}
+	}
 	for i := from; i < to; i++ {
+		if skip[progs[i].scen] {
+			fmt.Fprintf(os.Stderr, "@@SKIP %d\n", i)
+			continue
+		}
 		fmt.Fprintf(os.Stderr, "@@BEGIN %d\n", i)
 		un, ex, first := c09runProg(&progs[i])
 		fmt.Fprintf(os.Stderr, "@@END %d %d %d %s\n", i, un, ex, strings.ReplaceAll(first, "\n", " "))
@@ -229,6 +239,7 @@ func c09child(seed uint64, thorough bool, from, to int) {
 // ---------------------------------------------------------------- parent
 
 type c09res struct {
+	skipped  bool
 	done     bool
 	race     bool
 	raceText string
@@ -334,6 +345,11 @@ func c09runChild(exe string, seed uint64, thorough bool, from int, res []c09res,
 				}
 				res[i].done = true
 				next = i + 1
+			case strings.HasPrefix(l, "@@SKIP "):
+				i, _ := strconv.Atoi(strings.TrimPrefix(l, "@@SKIP "))
+				res[i].skipped = true
+				res[i].done = true
+				next = i + 1
 			case l == "@@DONE":
 			case strings.HasPrefix(l, "WARNING: DATA RACE"):
 				inBlock = true
@@ -387,23 +403,33 @@ func c09(c *Ctx) {
 	}
 	res := make([]c09res, len(progs))
 	limit := 10 * time.Second
-	retried := map[int]bool{}
+	// watchdog budget: an expiry is retried once with a longer limit (a loaded machine is not a
+	// deadlock); after two confirmed deadlocks in one scenario its remaining programs are skipped
+	// (each costs the full limit), and the skipped rows say so
+	deadIn := map[int]int{}
+	var skip []string
 	for i := 0; i < len(progs); {
+		os.Setenv("C09_SKIP", strings.Join(skip, ","))
 		n := c09runChild(exe, c.Seed, c.Thorough, i, res, limit)
-		if n > 0 && n <= len(progs) && n-1 >= i && res[n-1].dead && !retried[n-1] {
-			// watchdog expiry: retry that program once with a longer limit before calling it a deadlock
-			retried[n-1] = true
-			res[n-1] = c09res{}
+		if n > 0 && n <= len(progs) && n-1 >= i && res[n-1].dead {
 			one := make([]c09res, len(progs))
 			c09runOne(exe, c.Seed, c.Thorough, n-1, one, 30*time.Second)
 			res[n-1] = one[n-1]
+			if res[n-1].dead {
+				sc := progs[n-1].scen
+				deadIn[sc]++
+				if deadIn[sc] == 2 {
+					skip = append(skip, strconv.Itoa(sc))
+				}
+			}
 		}
 		if n <= i {
 			n = i + 1
 		}
 		i = n
 	}
-	races, deads, panics, expected := 0, 0, 0, 0
+	os.Unsetenv("C09_SKIP")
+	races, deads, panics, expected, nskipped := 0, 0, 0, 0, 0
 	// side-channel lines are written after all case rows (ocaml/driver answers every line it reads,
 	// the runner pairs verdicts with rows only)
 	type viol struct {
@@ -446,14 +472,19 @@ func c09(c *Ctx) {
 		bad := r.panics > 0 || r.crash != ""
 		obs := L(Bool(r.race), Bool(r.dead), Bool(bad), I(0))
 		nt := "0"
-		if len(p.threads) >= 2 && total >= 4 && mut {
+		if len(p.threads) >= 2 && total >= 4 && mut && !r.skipped {
 			nt = "1"
+		}
+		cls := sc.name + "/" + p.class
+		if r.skipped {
+			cls = sc.name + "/not-run-after-deadlocks"
+			nskipped++
 		}
 		fresh := "fresh"
 		if p.warm {
 			fresh = "warm"
 		}
-		c.Emit(L(L(threads...), LI(p.sched)), obs, map[string]string{"nt": nt, "class": sc.name + "/" + p.class,
+		c.Emit(L(L(threads...), LI(p.sched)), obs, map[string]string{"nt": nt, "class": cls,
 			"g": strconv.Itoa(len(p.threads)), "ops": strconv.Itoa(total)})
 		replay := L(c09word(sc.name), c09word(fresh), L(replayT...), c09word("seed"), U(c.Seed), c09word("index"), I(i))
 		expected += r.expected
@@ -481,6 +512,7 @@ func c09(c *Ctx) {
 	c.Info("programs", strconv.Itoa(len(progs)))
 	c.Info("race_reports", strconv.Itoa(races))
 	c.Info("deadlocks", strconv.Itoa(deads))
+	c.Info("programs_not_run_after_deadlocks", strconv.Itoa(nskipped))
 	c.Info("unexpected_panics", strconv.Itoa(panics))
 	c.Info("expected_panics_recovered", strconv.Itoa(expected))
 }
